@@ -45,6 +45,7 @@ SPEC = {
     'A-RNG: threefry fold_in and SHA-1 are free constructors (keys are terms); A-PY: variable trees are dicts with distinct keys',
   ],
   'assumptions': [
+    'a transformed function is identified by (transformed class, method): the model keeps one trace cache and one counter-delta cache per transformed function (jitHistory per function, keyByFn = true); the module fingerprint has no method-name field, so this identification is what keeps two jitted methods of one class apart (multimethod family)',
     'nn.jit compares module fingerprints by equality of the fingerprint tuples (after the repair cfc8239; before, by hash only): attribute values that are == (1, True, 1.0) share a trace, as for JAX static arguments',
     'cond/switch/while_loop bodies draw no rngs (tracing every branch / the loop body once advances the shared counters; not promised by the property)',
     'lifted control flow is compared with Python control flow on the domain where JAX can trace it: every branch traces without error and with one tree structure; the loop body preserves the carry structure (documented in lift.cond / lift.while_loop)',
@@ -1328,6 +1329,110 @@ def gen_deepchild_case(rng):
 
 
 # ------------------------------------------------------------------------------------------------
+# class form with several transformed methods: nn.jit / nn.remat (M, methods=[...] | {...})
+# ------------------------------------------------------------------------------------------------
+
+
+def check_multimethod_case(ctx, case):
+  """`nn.jit(M, methods=…)` / `nn.remat(M, methods=…)` naming 2-3 methods whose bodies differ (own sub-module with its
+  own parameter, own state variable, own constants).  The methods are called in a permuted order, 1-2 times each, either
+  through separate apply/init calls (`method=`) or inside one apply of a parent; the transformed function is identified
+  by (class, method) — one trace cache per method.  Oracle: the untransformed class (init tree, outputs, updated
+  collections)."""
+  t, names = case['transform'], case['methods']
+  consts = case['consts']
+
+  class Leaf(nn.Module):
+    w0: int
+
+    @nn.compact
+    def __call__(self, x):
+      return x * self.param('w', lambda key: I(self.w0))
+
+  lp.KEEP_ALIVE.append(Leaf)
+
+  def setup(self):
+    for i in range(len(names)):
+      setattr(self, f'l{i}', Leaf(consts[i] + 2))
+
+  def mk_method(i):
+    def m(self, x):
+      y = getattr(self, f'l{i}')(x)
+      n = self.variable('stats', f'n{i}', lambda: I(i))
+      if self.is_mutable_collection('stats'):
+        n.value = n.value + consts[i]
+      return y + n.value * (i + 1)
+
+    m.__name__ = names[i]
+    return m
+
+  ns = {'setup': setup}
+  for i, nm in enumerate(names):
+    ns[nm] = mk_method(i)
+  MM = type('MM', (nn.Module,), ns)
+  lp.KEEP_ALIVE.append(MM)
+  if t == 'plain':
+    raise ValueError
+  meth = list(names) if case['form'] == 'list' else {nm: {} for nm in names}
+  tr = {'jit': nn.jit, 'remat': nn.remat, 'checkpoint': nn.checkpoint}[t]
+  canon = lambda out: jax.tree.map(lambda v: np.asarray(v).tolist(), out)
+  x = I(case['x'])
+  obs = {}
+  for which in ('plain', 'lifted'):
+    C = MM if which == 'plain' else tr(MM, methods=meth)
+    lp.KEEP_ALIVE.append(C)
+    rec = []
+    if case['mode'] == 'one-apply':
+      order = case['order']
+
+      def top(self, x, C=C):
+        m = C(name='sub')
+        return tuple(getattr(m, nm)(x) for nm in order)
+
+      Top = type('MMTop', (nn.Module,), {'__call__': nn.compact(top)})
+      lp.KEEP_ALIVE.append(Top)
+      r = lp.call(lambda: canon(Top().init_with_output(jax.random.key(0), x)))
+      rec.append(r)
+      if r[0] == 'ok':
+        vs = Top().init(jax.random.key(0), x) if which == 'plain' else None
+      for _ in range(case['repeats']):
+        rec.append(lp.call(lambda: canon(Top().apply(case_vars(case, names, 'sub'), x, mutable=['stats']))))
+    else:
+      for nm in case['order']:
+        rec.append(lp.call(lambda: canon(C().init_with_output(jax.random.key(0), x, method=nm))))
+      for nm in case['order']:
+        rec.append(lp.call(lambda: canon(C().apply(case_vars(case, names, None), x, method=nm, mutable=['stats']))))
+    obs[which] = rec
+  ctx.case(case)
+  ctx.count('transform', f'multimethod-{t}/{case["form"]}/{case["mode"]}')
+  for i, (p, l) in enumerate(zip(obs['plain'], obs['lifted'])):
+    if p != l:
+      ctx.violation(f'multimethod-{t}-differs', f'nn.{t}(M, methods={meth}) step {i} of order {case["order"]} ({case["mode"]}): transformed {l} vs untransformed class {p} on {json.dumps(case)}', case)
+      return
+
+
+def case_vars(case, names, sub):
+  params = {f'l{i}': {'w': I(case['ws'][i])} for i in range(len(names))}
+  stats = {f'n{i}': I(case['ns'][i]) for i in range(len(names))}
+  if sub:
+    return {'params': {sub: params}, 'stats': {sub: stats}}
+  return {'params': params, 'stats': stats}
+
+
+def gen_multimethod_case(rng):
+  k = rng.randrange(2, 4)
+  names = ['encode', 'decode', 'extra'][:k]
+  order = []
+  for nm in rng.sample(names, k):
+    order += [nm] * rng.randrange(1, 3)
+  if rng.random() < 0.5:
+    rng.shuffle(order)
+  return {'kind': 'multimethod', 'transform': rng.choice(['jit', 'jit', 'remat', 'checkpoint']), 'form': rng.choice(['list', 'dict']),
+          'mode': rng.choice(['one-apply', 'separate']), 'methods': names, 'order': order, 'consts': [rng.randrange(1, 4) for _ in names],
+          'ws': [rng.randrange(2, 6) for _ in names], 'ns': [rng.randrange(0, 3) for _ in names], 'x': rng.randrange(1, 4), 'repeats': 2}
+
+
+# ------------------------------------------------------------------------------------------------
 # finding B2: a jitted *method* that creates auto-named sub-modules, called twice in one compact method
 # ------------------------------------------------------------------------------------------------
 
@@ -1460,6 +1565,8 @@ def run_case(ctx, drv, case):
     check_setupchild_case(ctx, drv, case)
   elif k == 'deepchild':
     check_deepchild_case(ctx, case)
+  elif k == 'multimethod':
+    check_multimethod_case(ctx, case)
   else:
     ctx.notes.append(f'unknown corpus case kind {k}')
 
@@ -1472,7 +1579,7 @@ def run(ctx):
     ctx.corpus_replayed += 1
     run_case(ctx, drv, obj.get('case', obj))
   scale = 12 if thorough else 1
-  plan = [('deepchild', 18), ('setupchild', 14), ('autoname', 12), ('history', 34), ('jit', 30), ('remat', 44), ('mapvars', 40), ('cond', 38), ('switch', 32), ('while', 32)]
+  plan = [('multimethod', 12), ('deepchild', 16), ('setupchild', 14), ('autoname', 12), ('history', 34), ('jit', 30), ('remat', 44), ('mapvars', 40), ('cond', 38), ('switch', 32), ('while', 32)]
   cases = []
   for what, n in plan:
     for _ in range(n * scale):
@@ -1486,6 +1593,8 @@ def run(ctx):
         cases.append(gen_setupchild_case(rng))
       elif what == 'deepchild':
         cases.append(gen_deepchild_case(rng))
+      elif what == 'multimethod':
+        cases.append(gen_multimethod_case(rng))
       else:
         cases.append(gen_ctrl_case(rng, what))
   for case in cases:
